@@ -13,7 +13,7 @@ import z3
 from pyvc import sym as S
 from pyvc.explore import explore, Ctx
 from pyvc.harness import Report, UnitResult, run_units
-from pyvc.interp import Interp, IGen, PyExc, PathEnd, run_sync
+from pyvc.interp import Interp, IGen, PyExc, PathEnd, Unsupported, run_sync
 from pyvc.loops import OneStepLoop
 from checks.common import mod
 
@@ -96,6 +96,12 @@ def unit_hex(chunk):
             ob(name, False, f"state high={high!r} low={low!r} input={feed!r}: got {r['outcome']} yields {r['yields']} consumed {r['consumed']} -> ({r['locals'].get('high_nibble')!r},{r['locals'].get('low_nibble')!r}); expected {e}")
         return ok
 
+    try:
+        run_step(H.parse_hex_string, "parse_hex_string", {"high_nibble": b"", "low_nibble": b""}, [])
+    except Unsupported as e:
+        # the scanner no longer has the loop / state the step rule speaks about: undecided here, the bounded stand-in decides
+        u.unsupported.append(f"C15/HEX/{chunk[0]}-{chunk[-1]}: {e}")
+        return u
     for h in chunk:
         hb = bytes([h])
         good = True
@@ -117,6 +123,50 @@ def unit_hex(chunk):
         ob(f"steps-from-high-{h:02x}", good, "every step from the states with this high nibble equals the spec step") if good else None
     u.stats = {"steps": n}
     u.paths = n
+    return u
+
+
+def hex_text_spec(text):
+    """whole-input spec of the hex front-end: whitespace anywhere is skipped, the rest are pairs of hex digits; bytes of the
+    leading well-formed pairs, then 'ValueError' at the first malformed pair or a dangling digit"""
+    digits = [bytes([c]) for c in text if bytes([c]).strip(WS)]
+    out = []
+    for i in range(0, len(digits) - 1, 2):
+        pair = digits[i] + digits[i + 1]
+        if not all(c in HEX for c in pair):
+            return out, "ValueError"
+        out.append(int(pair, 16))
+    if len(digits) % 2:
+        return out, "ValueError"
+    return out, None
+
+
+def unit_hex_bounded(maxlen, part, parts):
+    """bounded stand-in (never counted as proved): every text of at most maxlen characters over a small alphabet through the
+    real parse_hex_string, against the whole-input spec"""
+    H = mod("tpmstream.io.hex.marshal")
+    u = UnitResult(f"XHEX/len<={maxlen}/part{part}")
+    u.functions = ["tpmstream.io.hex.marshal:parse_hex_string"]
+    alphabet = [0x30, 0x39, 0x61, 0x46, 0x20, 0x0A, 0x67, 0x2B, 0xA0]
+    n, dis = 0, []
+    k = 0
+    for length in range(0, maxlen + 1):
+        for t in itertools.product(alphabet, repeat=length):
+            k += 1
+            if k % parts != part:
+                continue
+            n += 1
+            text = bytes(t)
+            got, err = [], None
+            try:
+                for b in H.parse_hex_string(iter(text)):
+                    got.append(b)
+            except Exception as e:  # noqa
+                err = type(e).__name__
+            if (got, err) != hex_text_spec(text):
+                dis.append({"input": {"text": text.hex()}, "detail": f"hex text {text!r}: bytes {got} then {err}, expected {hex_text_spec(text)}", "site": "hex/marshal.py:parse_hex_string"})
+    u.bounded.append({"name": f"hex-texts/len<={maxlen}/part{part}", "bound": f"all texts of at most {maxlen} characters over 0 9 a F space newline g + 0xa0", "evaluations": n, "disagreements": dis[:8], "all_disagreements": len(dis)})
+    u.obligations.append({"name": f"{u.name}/ran", "kind": "bounded-bookkeeping", "site": "", "status": "proved", "backend": "bookkeeping", "seconds": 0, "model": None, "detail": f"{n} texts"})
     return u
 
 
@@ -493,6 +543,7 @@ def run(tier, seed, only=None):
                        "auto-detection is claimed for texts whose first two characters form a hex pair", "pcap payload lengths 0..16 enumerated; the trimming logic does not depend on the length beyond 10"]
     rep.replayer = replayer
     jobs = [(unit_hex, (list(range(i, min(i + 16, 256))),)) for i in range(0, 256, 16)]
+    jobs += [(unit_hex_bounded, (6 if tier == "thorough" else 5, p, 8)) for p in range(8)]
     jobs += [(unit_swtpm, ())]
     jobs += [(unit_auto, (i, min(i + 15, 255))) for i in range(0, 256, 16)]
     jobs += [(unit_wrapper, (w, k)) for w in ("hex", "swtpm") for k in ("opaque", "bytes", "bytearray", "list", "iterator")] + [(unit_wrapper, ("pcapng", "opaque")), (unit_auto_dispatch, ())]
